@@ -416,7 +416,16 @@ def builder_structs(tier):
                 fs = []
                 for j in idx_list:
                     lo_, w_ = parts[j]
-                    fs.append(Field([(lo_, w_)], _kind(w_, salt + j), access=('r' if j == ro else 'rw'), family='BLD'))
+                    acc_ = 'r' if j == ro else ('w' if (salt + j) % 6 == 5 else 'rw')      # some steps belong to write-only fields
+                    sel = (salt * 3 + j) % 10
+                    if sel == 7 and w_ <= 4:
+                        fs.append(Field([(lo_, w_)], 'e', enum=ex_enum(w_), access=acc_, family='BLD'))     # incl. 1-bit enums
+                    elif sel == 8 and w_ in NE_WIDTHS:
+                        fs.append(Field([(lo_, w_)], 'o', enum=ne_enum(w_), access=acc_, family='BLD'))
+                    elif sel == 9 and w_ in IN_WIDTHS:
+                        fs.append(Field([(lo_, w_)], 'c', inner_n=w_, access=acc_, family='BLD'))
+                    else:
+                        fs.append(Field([(lo_, w_)], _kind(w_, salt + j), access=acc_, family='BLD'))
                 if order == 'rev':
                     fs.reverse()
                 elif order == 'rot' and len(fs) > 1:
